@@ -6,6 +6,7 @@ import (
 	"fmt"
 	"reflect"
 	"strings"
+	"time"
 
 	"github.com/theparanoids/ysshra/keyid"
 	"github.com/theparanoids/ysshra/verifharness/lib/ev"
@@ -195,7 +196,7 @@ func rawJSON(k *keyid.KeyID) string {
 var retypes = []string{`null`, `"x"`, `"1"`, `"true"`, `0`, `1`, `-1`, `1.5`, `1e3`, `true`, `false`, `[]`, `[1]`, `["a"]`, `{}`, `{"a":1}`, `65536`, `99999999999999999999`}
 
 func main() {
-	ev.Main("C05", "exploration", func(r *ev.Run) {
+	ev.MainIsolated("C05", "exploration", 40*time.Minute, func(r *ev.Run) {
 		r.Rule("cases: (1) the full attribute cube 2^4 flags x touch{-1,0,1,2,3,4,99} x usage{0,1,7} x version{0,1,2,65535}, each with seeded principals/strings, encoded and round-tripped; (2) for every cube value its raw JSON (bypassing the encoder's checks) decoded; (3) per valid encoding every single required-field deletion, case-rename, duplication and retyping; (4) JSON scalars/arrays/nesting; (5) random bytes and byte mutations of valid encodings. distinct_nontrivial = distinct encoder outputs + distinct decoder inputs that are JSON objects (i.e. got past syntax) + distinct refused flag combinations")
 		r.Assume("encoding/json (into map[string]RawMessage) is the independent witness for 'the text contained the field'", "strings are valid UTF-8 (JSON cannot carry other bytes verbatim)")
 		reps := r.Pick(2, 40)
